@@ -58,8 +58,9 @@ def _tensor(t, with_name=True):
 
 
 class Canon:
-    def __init__(self) -> None:
+    def __init__(self, ir_version=None) -> None:
         self.ids: dict[int, int] = {}
+        self.ir_version = ir_version  # applies to nested graphs as well (device configurations exist from 11 on)
 
     def vid(self, v, declare=False):
         if v is None:
@@ -102,9 +103,9 @@ class Canon:
             return (a.name, int(a.type), ("ref", a.ref_attr_name), _s(a.doc_string))
         t = a.type
         if t == ir.AttributeType.GRAPH:
-            val = self.graph(a.value)
+            val = self.graph(a.value, self.ir_version)
         elif t == ir.AttributeType.GRAPHS:
-            val = tuple(self.graph(g) for g in a.value)
+            val = tuple(self.graph(g, self.ir_version) for g in a.value)
         elif t == ir.AttributeType.TENSOR:
             val = _tensor(a.value)
         elif t == ir.AttributeType.TENSORS:
@@ -156,12 +157,12 @@ class Canon:
 
 
 def canon_model(m) -> tuple:
-    c = Canon()
     irv = m.ir_version
+    c = Canon(irv)
     main = c.graph(m.graph, irv)
     fns = []
     for key, f in m.functions.items():
-        fc = Canon()
+        fc = Canon(irv)
         fns.append((tuple(key), fc.function(f, irv)))
     dcs = c.dc(tuple(m.device_configurations)) if irv >= 11 else ()
     return (
